@@ -3,6 +3,7 @@ package types
 import (
 	"fmt"
 	sdk "github.com/cosmos/cosmos-sdk/types"
+	"sort"
 )
 
 const (
@@ -196,7 +197,12 @@ func validateLastOccurrence(lastOccurrence map[string]string) error {
 	if lastOccurrence[Main] == "" {
 		return fmt.Errorf("there must be at least one subdistributor with the source main type")
 	}
+	accountIds := make([]string, 0, len(lastOccurrence))
 	for accountId := range lastOccurrence {
+		accountIds = append(accountIds, accountId)
+	}
+	sort.Strings(accountIds)
+	for _, accountId := range accountIds {
 		if lastOccurrence[accountId] != Source {
 			return fmt.Errorf("wrong order of subdistributors, after each occurrence of a subdistributor with the " +
 				"destination of internal or main account type there must be exactly one occurrence of a subdistributor with the " +
